@@ -194,6 +194,16 @@ def mk_obj(B, frame="base_link"):
         velocity=(0.0, 0.0, 0.0), semantic_score=0.5, semantic_label=Label(AutowareLabel.CAR, "car", []))
 
 
+def derive_obj(o, B):
+    """deepcopy + state update, as common/dataset.py and common/geometry.py derive interpolated / converted objects"""
+    import copy
+
+    o2 = copy.deepcopy(o)
+    o2.state.position = (float(B["x"]), float(B["y"]), float(B["z"]))
+    o2.state.orientation = _quat(B["c"], B["s"])
+    return o2
+
+
 def mk_obj2d(r):
     from perception_eval.common.label import AutowareLabel, Label
     from perception_eval.common.object2d import DynamicObject2D
@@ -454,7 +464,13 @@ class Box3dCorr(Corr):
         sw = scores3d(g, e)
         obs["sw"] = {k: sw[k] for k in ("cd", "i2", "i3")}
         Em, Gm = moved(case["m"], E), moved(case["m"], G)
-        obs["mv"] = scores3d(mk_obj(Em), mk_obj(Gm))
+        # the moved pair: half of the cases build it the way the library derives objects (interpolation, frame conversion): a deepcopy of
+        # the ALREADY SCORED object whose state is then updated -- the scores must follow the current state
+        if (len(case["e"].get("p", case["e"].get("pf", [0]))) + int(abs(float(E["x"])) * 8) + int(abs(float(G["y"])) * 8)) % 2 == 0:
+            obs["mv"] = scores3d(derive_obj(e, Em), derive_obj(g, Gm))
+            obs["mv_derived"] = True
+        else:
+            obs["mv"] = scores3d(mk_obj(Em), mk_obj(Gm))
         # the SAME physical pair (E, G in the ego frame) rendered in the MAP frame through the ego pose m, with the frame's transforms:
         # the ground truth's nearest side must still be the one nearest to the EGO (object_matching.py: corners transformed back)
         # (skipped when the 2nd and 3rd nearest ground-truth corners are tied or nearly tied in the ego frame: the distances recovered
@@ -592,12 +608,13 @@ class Box3dCorr(Corr):
     def distribution(self, cases, obs):
         d = {"tags": {}, "rotated_pairs": 0, "axis_aligned_pairs": 0, "iou2_zero": 0, "iou2_between": 0, "iou2_one": 0,
              "iou3_zero_iou2_pos": 0, "exact_tie_2nd_3rd": 0, "tie_resolved_like_stable_sort": 0, "pure_rotation_motions": 0,
-             "max_size_ratio": 0.0, "lr_compared_ordered": 0, "map_frame_renderings": 0}
+             "max_size_ratio": 0.0, "lr_compared_ordered": 0, "map_frame_renderings": 0, "moved_pair_derived_by_deepcopy_and_state_update": 0}
         for c, o in zip(cases, obs):
             if "__harness_exception__" in o:
                 continue
             d["tags"][c["tag"]] = d["tags"].get(c["tag"], 0) + 1
             d["map_frame_renderings"] += o.get("map") is not None
+            d["moved_pair_derived_by_deepcopy_and_state_update"] += bool(o.get("mv_derived"))
             E, G = params(c["e"]), params(c["g"])
             aa = E["s"] == 0 and G["s"] == 0
             d["axis_aligned_pairs" if aa else "rotated_pairs"] += 1
